@@ -1928,7 +1928,11 @@ MANIFEST = {
             "boost's bracketing search recorded; VanaOwen: length recomputed from the recorded path). Histories change bounds, "
             "dimensions and weights (by index and by name) after construction / setup() and compare with the model recomputed "
             "from the current values. Every known finding must be bit-identical to the model of the code as it stands "
-            "(`as_coded`), so a different wrong value is a violation.",
+            "(`as_coded`), so a different wrong value is a violation. Compound weights are generated over their whole legal range "
+            "(5e-324 ... 1e100, both sides of DBL_EPSILON, tiny weights on components with ranges up to 2e300, refused negative ones), "
+            "the weighted-sum oracle folds the components' own distances as coded at every level with a relative tolerance, and "
+            "the weighted-sum clause is proved in closed form for every weight vector; getMaximumExtent's epsilon guard is a "
+            "kernel-checked finding (F360) with the repaired guard proved for all non-negative weights.",
     "note": "Trusted: Lean kernel, the three standard axioms, the model outside the explored inputs, the harness, claims.py. "
             "Theorems are over the reals (rounding executed and compared, not verified). The metric theory of the car-like spaces "
             "is C14's; here they are lock-stepped and put to the oracle. Constrained spaces are exercised over sphere, plane and "
